@@ -112,6 +112,37 @@ var cowCallees = map[string]bool{"appendContainer": true, "appendWithoutCopy": t
 	"getWritableContainerAtIndex": true, "getFastContainerAtIndex": true, "getUnionedWritableContainer": true,
 	"copyOrSourceContainerAt": true, "cloneCopyOnWriteContainers": true, "clone": true, "Clone": true, "CloneCopyOnWriteContainers": true}
 
+var cowParts = []string{"Mut", "Alg", "Agg", "Dec", "Xf"}
+
+// cowPartOf classifies the function an entry of the 32-bit sharing skeleton stands in
+func cowPartOf(fn string) string {
+	switch fn {
+	case "roaringArray.readFrom", "roaringArray.frozenView":
+		return "Dec"
+	case "Bitmap.FromDense", "AddOffset64", "Flip":
+		return "Xf"
+	case "Bitmap.Add", "Bitmap.AddMany", "Bitmap.AddRange", "Bitmap.CheckedAdd", "Bitmap.CheckedRemove", "Bitmap.Remove", "Bitmap.RemoveRange",
+		"Bitmap.Flip", "Bitmap.addwithptr", "Bitmap.Clone", "Bitmap.CloneCopyOnWriteContainers", "Bitmap.SetCopyOnWrite":
+		return "Mut"
+	case "And", "AndNot", "Or", "Xor", "Bitmap.And", "Bitmap.AndNot", "Bitmap.Or", "Bitmap.Xor", "roaringArray.mergeBulk":
+		return "Alg"
+	case "Bitmap.AndAny", "lazyOR", "Bitmap.lazyOR", "Bitmap.repairAfterLazy", "FastAnd", "FastOr", "HeapOr", "HeapXor", "ParAnd", "ParHeapOr",
+		"ParOr", "appenderRoutine", "lazyIOrOnRange", "lazyOrOnRange":
+		return "Agg"
+	}
+	if strings.HasPrefix(fn, "roaringArray.") {
+		return "Prim"
+	}
+	if strings.HasPrefix(fn, "arrayContainer.") || strings.HasPrefix(fn, "bitmapContainer.") || strings.HasPrefix(fn, "runContainer16.") ||
+		fn == "newRunContainer16FromContainer" {
+		if strings.Contains(fn, "lazy") {
+			return "Agg"
+		}
+		return "Alg"
+	}
+	return "Prim" // a function not classified above concerns every part
+}
+
 var cowGroups = []struct{ lean, pkg string }{{"cowSkeleton", ""}, {"cowSkeleton64", "roaring64"}, {"cowSkeletonBSI32", "BitSliceIndexing"}}
 
 var skeletons = []item{
@@ -271,6 +302,31 @@ func main() {
 			fmt.Fprintf(&out, "  %q%s\n", e, sep)
 		}
 		fmt.Fprintln(&out, "]")
+		if g.pkg == "" {
+			// the same list once more, split by the kind of function the entry stands in (the bookkeeping primitives of roaringArray
+			// belong to every part): a refactoring of Add/Remove then concerns the mutation property, not the decoders or aggregates
+			for _, part := range cowParts {
+				var sel []string
+				for _, e := range ev {
+					fn := e
+					if k := strings.Index(e, ":"); k >= 0 {
+						fn = e[:k]
+					}
+					if cowPartOf(fn) == part || cowPartOf(fn) == "Prim" {
+						sel = append(sel, e)
+					}
+				}
+				fmt.Fprintf(&out, "def %s%s : List String := [\n", g.lean, part)
+				for i, e := range sel {
+					sep := ","
+					if i == len(sel)-1 {
+						sep = ""
+					}
+					fmt.Fprintf(&out, "  %q%s\n", e, sep)
+				}
+				fmt.Fprintln(&out, "]")
+			}
+		}
 	}
 	fmt.Fprintln(&out, "")
 	fmt.Fprintln(&out, "/-! ### source fingerprints (FNV-1a of the gofmt-normalised declaration) — informational, not obligations -/")
